@@ -38,11 +38,13 @@ pub(crate) fn optimize(
     if enabled_modes.contains(mode) {
         plans.push(start_plan);
     } else {
-        start_plan.add_switches(&mut plans, data.len(), true, enabled_modes);
+        // add_switches() already steps the new plans once, so they are
+        // the result of the first iteration, not its input
+        start_plan.add_switches(&mut new_plan, data.len(), true, enabled_modes);
     }
 
     for iteration in 0usize.. {
-        let mut at_end = false;
+        let mut at_end = plans.is_empty() && data.is_empty();
         let use_as_start = iteration == 0;
 
         let rest_chars = data.len() - iteration;
